@@ -8,8 +8,15 @@
    allocator calls it makes, in program order (events), and an optional `defect`: the place where the
    code does something the value-semantics contract cannot tolerate (counter decremented twice, size_t
    wrap, null counter dereference, stale pointer comparison, ...).  The record `fixes` selects, per
-   defect, the code as it is (false) or the minimal repair proposed in frag/C17.fix-*.diff (true); the
-   check reads which variant /repo currently contains and runs the model in the same configuration.
+   recorded defect, the body before the repair (false: history, kept so that a regression is executed the
+   same way) or the repaired body (true).  All recorded Array0 repairs are in /repo: the check runs
+   `all_fixed` and PROBES the behaviour of the current tree (own-process sequences); it never reads the
+   variant from the source text.  The phase-4 repairs (fixr: GivMMFreeList::resize(0,x,0), 711242e; fixrc:
+   GivMMRefCount::resize of a refused size, 6534caa; fxc: getCounter() of an empty array, 293ff71) are
+   parameters of the functions concerned; they are in /repo too: the check runs every flag = true, always
+   (the comparison is unconditional), and the `false` bodies are HISTORY, kept for the refuted examples.
+   Where the code is undefined the model is PARTIAL: a defect value, never an invented result
+   (DOutOfRange: write/operator[] outside the documented precondition i < size; get_counter = None).
 
    Layer 2 (allocator): TabFree as size class -> stack of addresses, the header word u.index as a map
    address -> class, search_binary over the TabSize table (passed as a parameter, read from the source
@@ -56,7 +63,9 @@ Inductive defect :=
 | DNoCopyPsz   (* Array0(p, givNoCopy) from p with _size = 0, _psz <> 0: result has _psz <> 0, _cnt = 0 *)
 | DStale       (* reallocate(0) on a shared array leaves _d dangling; copy(src) later tests `src._d == _d` *)
 | DSelfLog     (* logcopy( *this): destroy() first, contents lost *)
-| DDangling.   (* counter cell of a released block touched *)
+| DDangling    (* counter cell of a released block touched *)
+| DOutOfRange. (* write / operator[] / front / back with i >= _size: outside the precondition the source documents
+                  (GIVARO_ASSERT((i >=0)&&(i<(Indice_t)_size)) in givarray0.inl); no guard under NDEBUG: _d[i] = val *)
 
 Inductive kind := KData | KCnt.
 Inductive event :=
@@ -278,7 +287,8 @@ Definition step (fx : fixes) (s : state) (o : op) : res :=
   | OReallocate h n => reallocate fx s h n
   | OPushBack h v => push_back fx s h v
   | ODestroy h => destroy s h
-  | OWrite h k v => if Nat.ltb k (h_size (geth s h)) then ret (write_cell s h k v) else ret s
+  | OWrite h k v => if Nat.ltb k (h_size (geth s h)) then ret (write_cell s h k v)
+                    else mkR s [] (Some DOutOfRange)     (* undefined in the code: the model refuses, the state is not touched *)
   | OReserve h n => bind (reallocate fx s h n) (fun s1 => reallocate fx s1 h 0)
   end.
 
@@ -292,9 +302,20 @@ Definition abs (s : state) (i : nat) : list Z :=
   | Some d => firstn (h_size h) (b_cells (getb s d))
   | None => []
   end.
-(* getCounter(): *_cnt, 0 standing for the null _cnt *)
+(* the precondition the source documents for an operation (today only the index range of write) *)
+Definition op_pre (s : state) (o : op) : bool :=
+  match o with OWrite h k _ => Nat.ltb k (h_size (geth s h)) | _ => true end.
+(* number of sharers as a specification helper: *_cnt, 0 standing for the null _cnt (NOT the member function) *)
 Definition counter (s : state) (i : nat) : Z :=
   match h_cnt (geth s i) with Some c => b_cnt (getb s c) | None => 0%Z end.
+(* int getCounter() const { return *_cnt; }        givarray0.h:171
+   fxc = false: history: `return *_cnt;` - a null _cnt was dereferenced, no value (None);
+   fxc = true : 293ff71, the body in /repo: `return (_cnt != 0) ? *_cnt : 0;` *)
+Definition get_counter (fxc : bool) (s : state) (i : nat) : option Z :=
+  match h_cnt (geth s i) with
+  | Some c => Some (b_cnt (getb s c))
+  | None => if fxc then Some 0%Z else None
+  end.
 
 (* ------------------------------------------------------------------ layer 2 : GivMMFreeList *)
 Local Open Scope Z_scope.
@@ -374,10 +395,11 @@ Definition fl_desallocate (a : astate) (op : option nat) : astate * option adefe
 
 (* void* GivMMFreeList::resize(void* src, size_t oldsize, size_t newsize)   givaromm.C:181
    result: (state, returned address, moved?) ; the old block is NOT released when the data moves *)
-Definition fl_resize (tab : list Z) (a : astate) (src : option nat) (oldsize newsize : Z)
+Definition fl_resize (fixr : bool) (tab : list Z) (a : astate) (src : option nat) (oldsize newsize : Z)
   : astate * option nat * option adefect :=
   match src with
-  | None => _allocate tab a newsize            (* repaired (fix-5): returns ->data of the new block *)
+  | None => if fixr then fl_allocate true tab a newsize     (* 711242e: `return GivMMFreeList::allocate(newsize);` *)
+            else _allocate tab a newsize       (* history: `return _allocate(newsize)->data;` - newsize = 0 indexed TabFree[-1] *)
   | Some p =>
     if newsize <=? oldsize then (a, Some p, None)
     else if newsize <=? nth (cls a p) tab 0 then (a, Some p, None)
@@ -391,12 +413,12 @@ Definition cinit := mkC ainit [] [].
 Definition apply_event (tab : list Z) (elsize : Z) (c : cstate) (e : event) : cstate :=
   match e with
   | EAlloc id KData n =>
-    match fl_allocate false tab (c_a c) (Z.of_nat n * elsize) with
+    match fl_allocate true tab (c_a c) (Z.of_nat n * elsize) with
     | (a1, Some p, _) => mkC a1 (set id p (c_data c)) (c_cnt c)
     | (a1, None, _) => mkC a1 (c_data c) (c_cnt c)
     end
   | EAlloc id KCnt n =>
-    match fl_allocate false tab (c_a c) (Z.of_nat n * 4) with
+    match fl_allocate true tab (c_a c) (Z.of_nat n * 4) with
     | (a1, Some p, _) => mkC a1 (c_data c) (set id p (c_cnt c))
     | (a1, None, _) => mkC a1 (c_data c) (c_cnt c)
     end
@@ -459,16 +481,20 @@ Definition rc_getrc (r : rstate) (op : option nat) : Z :=
   match op with None => 0 | Some p => rcnt r p end.
 
 (* void* GivMMRefCount::resize(void* p, const size_t oldsize, const size_t newsize)      givaromm.C:225 *)
-Definition rc_resize (tab : list Z) (r : rstate) (op : option nat) (oldsize newsize : Z)
+Definition rc_resize (fixrc : bool) (tab : list Z) (r : rstate) (op : option nat) (oldsize newsize : Z)
   : rstate * option nat * option adefect :=
   match op with
   | None => rc_allocate tab r newsize          (* repaired (f88856f): the count of the new block is set to 1 *)
   | Some p =>
-    (* tmp = _allocate(newsize + 8); tmp->data[0] = 1; memcpy(min(oldsize,newsize)) *)
+    (* tmp = _allocate(newsize + 8); tmp->data[0] = 1; memcpy(min(oldsize,newsize))
+       r0 = the state after `desallocate(p)` (sole owner) / `--count` (shared).  When _allocate throws GivError (no size class):
+       history (fixrc = false): the release / decrement HAD ALREADY HAPPENED and the caller kept p;
+       6534caa (fixrc = true, the body in /repo) allocates first and releases afterwards: the state before the call is kept.
+       On the served path both orders give the same addresses (the new class differs from the class of p). *)
     let fresh (r0 : rstate) :=
         match _allocate tab (rs_a r0) (newsize + 8) with
         | (a1, Some t, d) => (set_cnt (set_a r0 a1) t 1, Some t, d)
-        | (_, None, d) => (r, Some p, d)        (* GivError: the model keeps the state before the call *)
+        | (_, None, d) => (if fixrc then r else r0, Some p, d)
         end in
     if rcnt r p =? 1 then
       if newsize <=? oldsize then (r, Some p, None)
@@ -486,7 +512,7 @@ Inductive rop :=
 | QResize (i : nat) (old new : Z)    (* q[i] = resize(q[i], old, new) *)
 | QProbe (i : nat).                  (* incrc(q[i]); getrc(q[i]); decrc(q[i]): the three values are observed *)
 
-Definition rstep (tab : list Z) (r : rstate) (o : rop) : rstate * list Z :=
+Definition rstep (fixrc : bool) (tab : list Z) (r : rstate) (o : rop) : rstate * list Z :=
   match o with
   | QNew i s =>
     match rc_allocate tab r s with
@@ -497,7 +523,7 @@ Definition rstep (tab : list Z) (r : rstate) (o : rop) : rstate * list Z :=
   | QAssignNull i => (rc_assign r i None, [])
   | QFree i => (setq (rc_desallocate r (getq r i)) i None, [])
   | QResize i old new =>
-    match rc_resize tab r (getq r i) old new with
+    match rc_resize fixrc tab r (getq r i) old new with
     | (r1, op, _) => (setq r1 i op, [])
     end
   | QProbe i =>
@@ -506,8 +532,15 @@ Definition rstep (tab : list Z) (r : rstate) (o : rop) : rstate * list Z :=
     let '(r2, c) := rc_decrc r1 (getq r i) in
     (r2, [a; b; c])
   end.
-Definition rrun (tab : list Z) (r : rstate) (ops : list rop) : rstate :=
-  fold_left (fun r o => fst (rstep tab r o)) ops r.
+Definition rrun (fixrc : bool) (tab : list Z) (r : rstate) (ops : list rop) : rstate :=
+  fold_left (fun r o => fst (rstep fixrc tab r o)) ops r.
+(* the request of the step that no size class holds (GivError), if any *)
+Definition rstep_df (fixrc : bool) (tab : list Z) (r : rstate) (o : rop) : option adefect :=
+  match o with
+  | QNew i s => snd (rc_allocate tab r s)
+  | QResize i old new => snd (rc_resize fixrc tab r (getq r i) old new)
+  | _ => None
+  end.
 
 (* ------------------------------------------------------------------ layer 2 as a machine: the `alloc` command of the harness
    Slots are append-only: slot k holds the pointer returned by the k-th a / r token (None = null pointer / refused).
@@ -519,7 +552,7 @@ Inductive pop :=
 Record pstate := mkP { p_a : astate; p_slots : list (option nat) }.
 Definition pinit := mkP ainit [].
 Definition pslot (s : pstate) (k : nat) : option nat := nth k (p_slots s) None.
-Definition pstep (fixed0 : bool) (tab : list Z) (s : pstate) (o : pop) : pstate * option nat * option adefect :=
+Definition pstep (fixed0 fixr : bool) (tab : list Z) (s : pstate) (o : pop) : pstate * option nat * option adefect :=
   match o with
   | PAlloc sz =>
     match fl_allocate fixed0 tab (p_a s) sz with
@@ -528,13 +561,13 @@ Definition pstep (fixed0 : bool) (tab : list Z) (s : pstate) (o : pop) : pstate 
     end
   | PFree k => let '(a1, d) := fl_desallocate (p_a s) (pslot s k) in (mkP a1 (p_slots s), None, d)
   | PResize k old new =>
-    match fl_resize tab (p_a s) (pslot s k) old new with
+    match fl_resize fixr tab (p_a s) (pslot s k) old new with
     | (a1, p, None) => (mkP a1 (p_slots s ++ [p]), p, None)
     | (_, p, Some d) => (mkP (p_a s) (p_slots s ++ [p]), p, Some d)
     end
   end.
-Definition prun (fixed0 : bool) (tab : list Z) (s : pstate) (ops : list pop) : pstate :=
-  fold_left (fun s o => fst (fst (pstep fixed0 tab s o))) ops s.
+Definition prun (fixed0 fixr : bool) (tab : list Z) (s : pstate) (ops : list pop) : pstate :=
+  fold_left (fun s o => fst (fst (pstep fixed0 fixr tab s o))) ops s.
 
 (* ------------------------------------------------------------------ layers 1 + 3 together: Array0 operations on the pool
    (what the driver executes: every allocator call a member function makes is interpreted by the pool, in program order) *)
